@@ -96,4 +96,24 @@ theorem wf_ofList (kvs : List (Bytes × Bytes)) : WF (Trie.ofList kvs) := by
     | cons kv kvs ih => intro t h; exact ih _ (wf_insert h kv.1 kv.2)
   exact key .nil trivial
 
+
+/-- The executable canonical-form check decides `WFAt`. -/
+theorem wfAtB_iff (t : Trie) : ∀ p : Bits, wfAtB p t = true ↔ WFAt p t := by
+  induction t with
+  | nil => intro p; simp [wfAtB, WFAt]
+  | leaf k v => intro p; simp [wfAtB, WFAt, List.isPrefixOf_iff_prefix]
+  | node lab lf l r ihl ihr =>
+    intro p
+    simp only [wfAtB, WFAt, Bool.and_eq_true, ihl, ihr, List.all_eq_true, List.isPrefixOf_iff_prefix,
+      decide_eq_true_eq, Trie.AllKeys]
+    constructor
+    · rintro ⟨⟨⟨⟨⟨h1, h2⟩, h3⟩, h4⟩, h5⟩, h6⟩
+      refine ⟨?_, h2, h3, h4, h5, h6⟩
+      intro kv hkv; subst hkv; simpa using h1
+    · rintro ⟨h1, h2, h3, h4, h5, h6⟩
+      refine ⟨⟨⟨⟨⟨?_, h2⟩, h3⟩, h4⟩, h5⟩, h6⟩
+      cases lf with
+      | none => rfl
+      | some kv => simpa using h1 kv rfl
+
 end OasisProofs.Mkvs
